@@ -43,6 +43,8 @@ SPELLINGS = {
     "normal#2": None, "fault11#2": None, "fault12#2": None,
     # white space before an XML declaration is not well-formed; around a document without one it is
     "malformed#6": None, "malformed#7": None, "normal#3": None, "fault11#3": None,
+    # a Fault that is not the first thing in the Body (another element, a comment, before it) is the reply's Fault
+    "fault11#4": None, "fault12#4": None,
 }
 
 
@@ -60,6 +62,9 @@ def body_bytes(kind, style):
         return ('<?xml version="1.0" encoding="UTF-16"?>' + body_bytes(kind.split("#")[0], style).decode("utf-8")).encode("utf-16")
     if kind in ("malformed#6", "malformed#7"):
         return b"\n <?xml version='1.0' encoding='UTF-8'?>" + body_bytes("normal" if kind.endswith("6") else "fault11", style)
+    if kind in ("fault11#4", "fault12#4"):
+        base = body_bytes(kind.split("#")[0], style)
+        return base.replace(b"<e:Body>", b'<e:Body><!-- trace --><t:trace xmlns:t="urn:trace">id-1</t:trace>', 1)
     if kind in ("normal#3", "fault11#3"):
         return b"\r\n\t " + body_bytes(kind.split("#")[0], style) + b"\n\n "
     if kind == "empty":
@@ -126,8 +131,9 @@ def outcome_of(fn, expect_value="hello"):
     try:
         r = fn()
     except suds.WebFault as e:
-        ok = e.fault is not None and e.document is not None and \
-            (getattr(e.fault, "faultstring", None) in ("boom", "bad") or hasattr(e.fault, "Reason"))
+        f_, d_ = getattr(e, "fault", None), getattr(e, "document", None)
+        ok = f_ is not None and d_ is not None and \
+            (getattr(f_, "faultstring", None) in ("boom", "bad") or hasattr(f_, "Reason"))
         return ["raiseWebFault"] if ok else ["raiseWebFault", "payload-missing"]
     except SAXParseException:
         return ["raiseParse"]
